@@ -2242,6 +2242,12 @@ impl<'a, S: RowSource> Executor<'a> for DynamicExecutor<'a, S> {
                     let sort_keys = &state.sort_keys;
 
                     while let Some(row) = state.child.next()? {
+                        if heap_size == 0 {
+                            // LIMIT 0 (with OFFSET 0): no row can be part of the result, and the
+                            // replacement branch below would index an empty heap.
+                            break;
+                        }
+
                         let owned: Vec<Value<'static>> =
                             row.values.iter().map(clone_value_owned).collect();
 
